@@ -136,17 +136,20 @@ class CfgInterp:
                 self._elem(n, env, events)
             if b.get("tk") == "SwitchStmt":
                 for v in self.ev(f.nodes[b["tc"]], env):
-                    target = default = None
+                    target = default = fallout = None
                     for sid in b["s"]:
                         lbl = f.nodes.get(self.blocks[sid].get("lbl"))
-                        if lbl is None:
-                            raise Unknown("switch successor without a label in %s" % f.name)
-                        if lbl["k"] == "default":
+                        if lbl is None or lbl["k"] not in ("case", "default"):
+                            # no arm matches and there is no default: control leaves the switch
+                            if fallout is not None:
+                                raise Unknown("switch with two unlabelled successors in %s" % f.name)
+                            fallout = sid
+                        elif lbl["k"] == "default":
                             default = sid
-                        elif lbl["k"] == "case" and lbl.get("c") and v in self.ev(lbl["c"][0], env):
+                        elif lbl.get("c") and v in self.ev(lbl["c"][0], env):
                             target = sid
                     if target is None:
-                        target = default
+                        target = default if default is not None else fallout
                     if target is None:
                         raise Unknown("switch without a default in %s" % f.name)
                     walk(target, env, events, depth + 1)
